@@ -206,7 +206,7 @@ class SheetGen:
         r.shuffle(types)
         if r.random() < 0.25:
             # repeated media types and `all`: MediaList keeps the effective ones (expected_model: media_effective)
-            types = [r.choice(["screen", "print", "all", "Print", "tv"]) for _ in range(8)]
+            types = [r.choice(["screen", "print", "all", "Print", "tv", "ALL", "SCREEN"]) for _ in range(8)]
         n = r.choice([1, 1, 1, 2, 3, 4])
         return NE([(self.g(), self.g(), self.mquery(types, i == n - 1)) for i in range(n)])
 
